@@ -16,7 +16,7 @@ Directives (each on its own line, leading whitespace ignored):
                                               the annotation it needs, e.g. a closure in a new shape): lost anchor, never an alarm
   //@SUBOPT "<from>" -> "<to>"                same, but skipped when <from> does not occur (used for `X::CONST` -> `X::CONST()`)
   //@START ... //@END                          insert the `//@  ` lines right after the opening brace of the body
-  //@AT "<text>" before|after                 insert the following `//@  ` lines before/after the first body line
+  //@AT "<text>" before|after [n]             insert the following `//@  ` lines before/after the first (n-th) body line
   //@END                                      containing <text>
   /*@EXPR file=.. const=NAME [ctx=..]@*/      inline: initialiser expression of a `const` item, verbatim
   /*@ARM file=.. macro=NAME arm=N@*/          inline: body of a macro_rules arm, verbatim
@@ -161,14 +161,14 @@ def splice(tmpl_path, repo_root):
                     forbids.append(re.compile(mm.group(1)))
                     i += 1
                 elif t.startswith('//@AT '):
-                    mm = re.match(r'//@AT\s+"(.*)"\s+(before|after)\s*$', t)
+                    mm = re.match(r'//@AT\s+"(.*)"\s+(before|after)(?:\s+(\d+))?\s*$', t)
                     i += 1
                     buf = []
                     while not src[i].strip().startswith('//@END'):
                         buf.append(re.sub(r'^\s*//@ ?', '', src[i]))
                         i += 1
                     i += 1
-                    ats.append((mm.group(1), mm.group(2), buf))
+                    ats.append((mm.group(1), mm.group(2) + (':' + mm.group(3) if mm.group(3) else ''), buf))
                 elif t.startswith('//@START'):
                     i += 1
                     buf = []
@@ -260,10 +260,16 @@ def splice(tmpl_path, repo_root):
                     fixed[1:1] = [('tmpl', tmpl_line)] * len(buf) + ([fixed[0]] if rest.strip() else [])
                     continue
                 idx = None
+                nth = 1
+                if ':' in where:
+                    where, nth_s = where.split(':')
+                    nth = int(nth_s)
                 for k, bl in enumerate(blines):
                     if fixed[k][0] == 'repo' and norm(pat) in norm(bl):
-                        idx = k
-                        break
+                        nth -= 1
+                        if nth == 0:
+                            idx = k
+                            break
                 if idx is None:
                     raise LostAnchor('hint anchor `%s` not found in %s' % (pat, a['fn']))
                 at = idx if where == 'before' else idx + 1
